@@ -46,10 +46,10 @@ ST_OIDS = {'p0': 1, 'p1': 2, 'p2': 3, 'p3': 4, 'r0': 0x11, 'r1': 0x12, 'r2': 0x1
 DESC = b'c06 transaction'
 
 
-def desc_for(label):
+def desc_for(label, salt):
     """some transactions carry no metadata at all (an empty first transaction then ends below file
     offset 39, the former finding #12 of _txn_find, repaired in /repo)"""
-    return '' if sum(map(ord, label)) % 3 == 0 else DESC.decode()
+    return '' if (sum(map(ord, label)) + salt) % 3 == 0 else DESC.decode()
 
 
 def hx(n):
@@ -345,7 +345,7 @@ class Real:
         fs = self.fs
         if self.mode == 'st':
             tid = self.next_tid()
-            t = TransactionMetaData('', desc_for(label), {})
+            t = TransactionMetaData('', desc_for(label, len(self.ops)), {})
             fs.tpc_begin(t, tid)
             for name in sorted(sets):
                 vals = sets[name] if isinstance(sets[name], list) else [sets[name]]
@@ -400,7 +400,7 @@ class Real:
         res = 'ok'
         if self.mode == 'st':
             utid = self.next_tid()
-            t = TransactionMetaData('', desc_for(label), {})
+            t = TransactionMetaData('', desc_for(label, len(self.ops)), {})
             fs.tpc_begin(t, utid)
             try:
                 for i in ids64:
@@ -584,6 +584,7 @@ class Oracle:
 
     def __init__(self):
         self.txns = []            # dict(tid, packed, writes: {oid: token|None})
+        self.expected_calls = []
         self.packed_upto = ''     # loads with a bound <= this tid are not compared with the history
 
     def idx(self, tid):
@@ -613,6 +614,7 @@ class Oracle:
         -> (outcome 'ok' | 'fail' | 'either', writes {oid: token|None}, data_txn {oid: tid|None|'-'},
             classes {oid: restore|merge|refuse|grey}, nontrivial)"""
         W, DT, classes = {}, {}, {}
+        self.expected_calls = []
         outcome = 'ok'
         nontrivial = False
         n = len(self.txns)
@@ -644,6 +646,7 @@ class Oracle:
                     c = 'refuse'
                 elif tok_is_rc(undone) and tok_is_rc(cur) and tok_is_rc(before):
                     m = rc_resolve(tok_val(undone), tok_val(cur), tok_val(before))
+                    self.expected_calls.append((tok_val(undone), tok_val(cur), tok_val(before)))
                     c = 'refuse' if m is None else 'merge'
                 else:
                     c = 'refuse'
@@ -709,6 +712,11 @@ def oracle_check(case, events):
             cnt('undo:predicted-' + outcome)
             res = ev['res']
             cnt('undo:real-' + res)
+            missing = [c for c in orc.expected_calls
+                       if list(c) not in [list(x) for x in ev['resolver_calls']]]
+            if missing and res in ('ok', 'UndoError'):
+                bad('C06:resolver-arguments', 'undo of %s: the class resolver was expected to be asked '
+                    '(undone, current, before) = %s, it was asked %s' % (ev['ids'], missing, ev['resolver_calls']))
             if res not in ('ok', 'UndoError'):
                 bad('C06:undo-raises-other', 'undo of %s raised %s instead of succeeding or UndoError'
                     % (ev['ids'], res))
